@@ -5,6 +5,7 @@ from .. import datadoc as dd
 
 ID = "C02"
 MODULE = "LasioProofs.Props.C02"
+EXTRA_MODULES = ["LasioProofs.Props.C02Tab"]
 RULE = ("(0) the inputs of the fixed findings first (21 leading comment/blank lines; ~A followed by a section; 1 row x 1 column; inner ~A "
         "ending in a blank line); (a) PlainData documents — WRAP=NO, default delimiter, r>=1 rows of c>=1 plain decimal tokens in many "
         "spellings, blanks/TABs with leading/trailing padding, blank and '#' comment lines at every position incl. first/last line of "
@@ -26,7 +27,9 @@ TRUSTED = ["binary64 conversion float()/np.float64() is a runtime service: the m
            "`\\d` of the READ_SUBS patterns is modelled on ASCII, Arabic-Indic and full-width digits only (the harness sends no other digits)",
            "the steering values (WRAP/NULL/DLM, section windows, number of declared curves) are taken from the locals of the running "
            "LASFile.read at the call of define_line_splitter, i.e. computed by the real header reader"]
-ASSUMPTIONS = ["PlainData: every line of the ~A window is blank, a '#' comment, or c >= 1 quiet tokens (no blank, quote, '#', ctrl-Z inside; no "
+ASSUMPTIONS = ["TabPlainData (DLM TAB declared): as PlainData with the inner separators of a data line restricted to non-empty runs of TABs (the "
+               "padding at both ends of the physical line may be any whitespace)",
+               "PlainData: every line of the ~A window is blank, a '#' comment, or c >= 1 quiet tokens (no blank, quote, '#', ctrl-Z inside; no "
                "read substitution matches inside — true of every plain decimal number, `subs_id_on_plain`) separated/padded by whitespace; "
                "at least one data line; default delimiter; the window ends at the end of the file or right before a '~' title line",
                "r >= 1 in PlainData; sections with blank/comment lines only (r = 0) are covered separately by C02_engines_agree_empty: both "
@@ -331,7 +334,9 @@ LEVEL_TEXT = ("Machine-checked Lean 4 theorems about an executable model of the 
               "assignment to curves): on every PlainData file, for every number of declared curves, NULL, null policy and WRAP value, "
               "readData with engine numpy and engine normal give the same curves (C02_engines_agree, unbounded sizes); the numpy engine itself "
               "answers when the body has no blank/comment line or ~A is last (C02_numpy_path), otherwise genfromtxt provably raises and the "
-              "normal engine answers (C02_fallback). Tie: differential comparison of the compiled model with the real read for each engine "
+              "normal engine answers (C02_fallback). The same four theorems hold for files that declare DLM TAB whose values are separated by runs "
+              "of TABs (C02_*_tab over TabPlainData, Props/C02Tab.lean), with the counter-example that a blank is no separator there "
+              "(C02_tab_separators_needed: the engines differ). Tie: differential comparison of the compiled model with the real read for each engine "
               "including the engine trace, and the property's oracle on the real code.")
 LEVEL_NOTE = ("Binary64 parsing is a parameter of the model (token->float table from Python's float()); genfromtxt is specified, not derived "
               "from numpy's source. Header sections are equal trivially in the model (the engine option is only read by the data part); the "
